@@ -16,7 +16,7 @@ TRUSTED = [
     "request theorems: Valve, Quake, Unreal 2 (and C04 for the GameSpy 3 challenge); GameSpy, the Minecraft handshake and the default ports of the definitions table are covered by the request oracle on the implementation and by model = implementation",
 ]
 RULE = ("every case compares the full send log of model and implementation; valid Spec-generated exchanges with 0-3 challenge rounds per request and stratified challenge bytes "
-        "{00,0a,41,5c,ff,fe,01,80}^4 plus random, all engines, ports 27015-27019, plus mutated scripts; the request oracle walks the observed trace against the script; "
+        "{00,0a,41,5c,ff,fe,01,80}^4 plus random, all engines, ports 27015-27019, plus mutated scripts; Quake, Unreal 2, GameSpy 1/2/3 requests and GameSpy 3 challenges (0, negatives, i32 extremes); every UDP game of the definitions table through the generic entry point with the port given / omitted, and through its own module with the port omitted (both must use the same default port); the Minecraft Java handshake with host name / protocol version settings; the request oracle walks the observed trace against the script; "
         "non-trivial = at least one challenge was echoed; distinct by case bytes")
 
 
